@@ -9,7 +9,7 @@ EXPLANATION = (
     "dominates the sentinel posts; max_workers is written under the processes management lock before the posts; exactly "
     "(alive - target) sentinels are posted, under that lock; no kill/terminate effect (survivors are kept); the pool is "
     "topped up after the shrink phase and the manager is woken afterwards (R-WAKE spawn instance); all three polling loops "
-    "can end in the failure post-state (R-POLL). Not decided: which pids survive."
+    "can end in the failure post-state (R-POLL); the unbounded wait for the pending table to empty is backed by the obligation that every entry leaves the table -- cancelled items, every feeder error class, delivered results (R-RESIZE-DRAIN). Not decided: which pids survive."
 )
 
 
@@ -18,6 +18,7 @@ def run(e, R, tier):
         L.r_lock_order,
         L.r_iter_snapshot,
         X.r_resize,
+        X.r_resize_drain,
         T.r_timeout_exit,
         lambda e, R: L.r_poll(e, R, only_funcs={f.qualname for f in e.prog.funcs.values() if f.module.name == "loky.reusable_executor"}),
         L.r_wake,
